@@ -154,7 +154,11 @@ class Interp(ExprMixin):
 
     # ---------------------------------------------------------------- logging
     def log(self, st, kind, node, **data):
-        ev = Event(kind, node, self.cur, in_loop=self.loop_depth > 0, depth=len(self.stack) - 1, **data)
+        # events raised inside helpers that did not exist when the rules were written (and inside
+        # closures) count as the caller's own events: depth 0
+        known = known_functions()
+        depth = sum(1 for k in self.stack[1:] if k in known and '<locals>' not in k and '<lambda>' not in k)
+        ev = Event(kind, node, self.cur, in_loop=self.loop_depth > 0, depth=depth, **data)
         st.events.append(ev)
         return ev
 
